@@ -3,7 +3,8 @@ import HL.Model.Ast
   Executable oracle for the lexer sentence of C06, written against the property text and
   independent of the model: "Tokenisation always makes progress: tokens cover the input left to
   right without overlap, stay inside it and end with end-of-input" — plus C07's lexical premise:
-  every LF byte is exactly one Newline token.  Applied by the driver to the token stream the
+  every LF byte is exactly one Newline token (the token is the line end: the LF, together with
+  the CR directly in front of it if there is one).  Applied by the driver to the token stream the
   *implementation* produced (`lex.tokens`).
 -/
 namespace HL.Spec.LexSpec
@@ -45,8 +46,16 @@ def lfOffsetsFrom : Nat → Bytes → List Nat
 /-- Offsets of the LF bytes of the input. -/
 def lfOffsets (input : Bytes) : List Nat := lfOffsetsFrom 0 input
 
+/-- Offsets of the bytes the Newline tokens end with (the last byte of each token's extent). -/
 def newlineOffsets (toks : List Token) : List Nat :=
-  (toks.filter (fun t => t.ty == .newline)).map (·.pos.off)
+  (toks.filter (fun t => t.ty == .newline)).map (·.stop.off - 1)
+
+/-- A Newline token is one line end: it spans one byte, or two bytes of which the first is a
+    carriage return (that its last byte is a line feed is `newlineOffsets = lfOffsets`), and it
+    ends at column 1 of the next line. -/
+def newlineShape (input : Bytes) (t : Token) : Bool :=
+  (t.stop.off == t.pos.off + 1 || (t.stop.off == t.pos.off + 2 && input[t.pos.off]? == some 0x0D)) &&
+  t.stop.line == t.pos.line + 1 && t.stop.col == 1
 
 /-- Line numbers: a token's line is 1 + the number of LF bytes before its offset. -/
 def linesOk (input : Bytes) (toks : List Token) : Bool :=
@@ -59,10 +68,9 @@ structure Verdict where
 def judge (input : Bytes) (toks : List Token) : Verdict :=
   if !ordered input.length 0 toks then
     ⟨false, "token extents overlap, run backwards, are empty, leave the input, or the stream does not end with EOF at |input|"⟩
-  else if newlineOffsets toks != lfOffsets input then ⟨false, "Newline tokens are not exactly the LF bytes"⟩
-  else if !(toks.all fun t => t.ty != .newline ||
-      (t.stop.off == t.pos.off + 1 && t.stop.line == t.pos.line + 1 && t.stop.col == 1)) then
-    ⟨false, "a Newline token does not span exactly one byte / one line"⟩
+  else if newlineOffsets toks != lfOffsets input then ⟨false, "Newline tokens do not end at exactly the LF bytes"⟩
+  else if !(toks.all fun t => t.ty != .newline || newlineShape input t) then
+    ⟨false, "a Newline token does not span exactly one line end (LF or CR LF) / one line"⟩
   else if !linesOk input toks then ⟨false, "token line number differs from 1 + number of LF bytes before it"⟩
   else if !covered input toks then ⟨false, "bytes other than blanks and tabs are not covered by any token"⟩
   else ⟨true, ""⟩
